@@ -221,6 +221,10 @@ class LangServer:
             params.get("rootUri") or params.get("rootPath") or ""
         )
         self._load_config_file()
+        # A list of names is accepted for pp_defs on the command line as it is
+        # in the configuration file
+        if isinstance(self.pp_defs, list):
+            self.pp_defs = {key: "" for key in self.pp_defs}
         # The root is the default source directory, not an addition to the ones
         # given with --source_dirs or in the configuration file; an empty list
         # in either place means "not specified"
